@@ -397,13 +397,21 @@ def render_openclass(case, impl, s, m):
 # ---- build (C01 C06 C12 C15) ----
 def elig_build(case, model):
     f = case.split(" ")
-    return len(f) == 7 and f[1] in ("calls", "extend", "fromiter") and len(case) < 600
+    return len(f) == 7 and f[1] in ("calls", "extend", "fromiter", "batches") and len(case) < 600
 
 
 def emit_build(n, case, impl):
     _, sem, fe, ty, rows, cols, ops = case.split(" ")
-    o = coq_ops(ops)
     nb = "(new_builder %d %d %d)" % (int(ty), int(rows), int(cols))
+    if sem == "batches":
+        # several extend batches on one builder: the composition is Builder.run_batches / batches_written and
+        # Fst.spec_batches (the definitions the C06 batch theorems are about), nothing is folded here
+        defs = ["Definition o%d : list (list op) := [%s]." % (n, "; ".join(coq_ops(b) for b in ops.split("|"))),
+                "Definition b%d := Eval vm_compute in run_batches %s o%d." % (n, nb, n)]
+        s = "(let '(acc, rs, _) := spec_batches None o%d in (rs, spec_content None acc []))" % n
+        m = "(b_finish_full model_masked_crc32c (fst b%d), batches_written %s o%d, b_stats (fst b%d), true)" % (n, nb, n, n)
+        return defs, s, m
+    o = coq_ops(ops)
     defs = ["Definition o%d : list op := %s." % (n, o),
             "Definition b%d := Eval vm_compute in %s %s o%d." % (n, "run_calls" if sem == "calls" else "run_extend", nb, n)]
     if sem == "calls":
@@ -446,6 +454,8 @@ def render_build(case, impl, s, m):
         mstr = "bytes=" + hx(bs)
     else:
         mstr = "PANIC" if fin == "Panic" else "nofst"
+    if sem == "batches":        # bytes_written after every batch, no cache counters
+        return st, "%s;bw=%s;st=na" % (mstr, "".join("%d," % x for x in bw))
     bws = "na" if fe in ("all", "dirty") else "".join("%d," % x for x in bw) if sem == "calls" else "" if sem == "fromiter" else "%d" % bw[0]
     mt = "%s;bw=%s;st=%s" % (mstr, bws, ",".join(str(x) for x in stats) if fe in ("raw", "raw_loop") else "na")
     return st, mt
